@@ -346,7 +346,8 @@ type Task struct {
 	Done     bool
 	Aborted  bool
 	Panic    string
-	Finished bool // set by the root goroutine after the run (inside the bubble)
+	Late     bool // the task ended during teardown (it was still blocked when the run was over)
+	Finished bool // the task ended by itself, before teardown (set by the root goroutine after the run)
 	finished chan struct{}
 }
 
@@ -393,6 +394,7 @@ func (t *Task) run(f func(t *Task)) {
 			}
 		}
 		t.Done = true
+		t.Late = t.sim.isTearing() // ended only because the run was being torn down
 		t.sim.taskDone()
 		close(t.finished) // real edge: the oracle may read t.Hist after <-finished
 	}()
